@@ -14,7 +14,10 @@ import (
 	"golang.org/x/text/unicode/norm"
 )
 
-var vC03Texts = []string{"", "a", "a a b", "b c", "A, b!", "a  b", "ﬁ É", "ａ"}
+// (the last text: a line break - a token of its own - and a symbol whose compatibility form
+// consists of capitals although the symbol itself has no lower-case form: normalisation is
+// NFKC first, then lower case)
+var vC03Texts = []string{"", "a", "a a b", "b c", "A, b!", "a  b", "ﬁ É", "ａ", "c\n™ ℝ"}
 
 // vRefTokens is the reference tokeniser: UAX#29 word segments of lower(NFKC(text)),
 // calling the libraries directly (not comet's wrappers).
@@ -235,7 +238,7 @@ func (s *vC03Sys) observe(h []string) {
 			nDel++
 		}
 	}
-	queries := []string{"a", "b", "a b", "z", "", "FI", " ", "c É"}
+	queries := []string{"a", "b", "a b", "z", "", "FI", " ", "c É", "tm", "\n", "r\nc"}
 	queries = append(queries, s.extraQ...)
 	for qi, q := range queries {
 		ref := s.refScores(q)
